@@ -15,6 +15,7 @@ Property sentence ↔ theorem
           `measurements_le_requests` (whole histories)
 -/
 import NtpVerif.Proofs.SourceSM
+import NtpVerif.Model.SourceBytes
 
 namespace NtpVerif.C08
 open NtpVerif.SourceSM NtpVerif.CookieStash
@@ -126,6 +127,259 @@ theorem accepted_clears_request (s s' : State) (now : Nat) (parsed : Option Pkt)
 theorem replay_ignored (s : State) (now : Nat) (parsed : Option Pkt) (a b : Nat) (bl : Option Bool)
     (h : s.pending = none) : handleIncoming s now parsed a b bl = (s, .ignore) :=
   incoming_no_pending true s now parsed a b bl h
+
+/-! #### end to end, on the received bytes
+
+`incomingBytes` = parser model (`NtpVerif.Model.Packet`, any decryption oracle) ; `recordOfParse` ; state machine — tied to the
+implementation by stream `sm_bytes_c08` (the Lean side computes the record from the BYTES). -/
+
+open NtpVerif.Wire NtpVerif.SourceBytes in
+/-- **C08.bytes_measurement_conditions** — if `handle_incoming` on the received BYTES yields a measurement, then the
+    datagram parsed successfully (`NtpPacket::deserialize` returned `Ok`, in particular the NTS authenticator, if any,
+    verified), and the parsed packet is an answer of the expected version, valid for exactly the pending request
+    (origin timestamp / client cookie and unique identifier, `valid_means_bound`), not a KISS code, stratum ≤ 16,
+    server mode, within the poll window; the request is consumed. -/
+theorem bytes_measurement_conditions (dec : Dec) (s2c : Option Bytes) (s s' : State) (now : Nat) (data : Bytes)
+    (sendTs recvTs : Nat) (bl : Option Bool) (u : Bool) (m : Meas) (k : Nat)
+    (h : incomingBytes dec s2c s now data sendTs recvTs bl = (s', .accepted u m k)) :
+    ∃ pkt cookie id deadline,
+      parse dec (ctxOf s2c) data = .ok pkt cookie ∧
+      s.pending = some (id, deadline) ∧ now ≤ deadline ∧
+      s.proto.expects (recordOfPacket pkt).version = true ∧
+      (recordOfPacket pkt).validResponse id s.nts.isSome = true ∧
+      (recordOfPacket pkt).stratum ≠ 0 ∧ (recordOfPacket pkt).stratum ≤ 16 ∧ (recordOfPacket pkt).mode = 4 ∧
+      s'.pending = none := by
+  unfold incomingBytes at h
+  obtain ⟨p, id, dl, hp, h1, h2, h3, h4, h5, h6, h7, h8, _⟩ :=
+    measurement_conditions s s' now _ sendTs recvTs bl u m k h
+  cases hpar : parse dec (ctxOf s2c) data with
+  | ok pkt c =>
+    rw [hpar] at hp
+    simp only [recordOfParse, Option.some.injEq] at hp
+    subst hp
+    exact ⟨pkt, c, id, dl, rfl, h1, h2, h3, h4, h5, h6, h7, h8⟩
+  | decryptErr pkt => rw [hpar] at hp; cases hp
+  | err e => rw [hpar] at hp; cases hp
+  | panic => rw [hpar] at hp; cases hp
+  | fuel => rw [hpar] at hp; cases hp
+
+open NtpVerif.Wire NtpVerif.SourceBytes in
+/-- **C08.bytes_replay_ignored** — without a pending request every datagram, whatever its bytes, is ignored. -/
+theorem bytes_replay_ignored (dec : Dec) (s2c : Option Bytes) (s : State) (now : Nat) (data : Bytes)
+    (a b : Nat) (bl : Option Bool) (h : s.pending = none) :
+    incomingBytes dec s2c s now data a b bl = (s, .ignore) :=
+  replay_ignored s now _ a b bl h
+
+theorem idxP_ok {bs : NtpVerif.Wire.Bytes} {i : Nat} {b : UInt8} (h : NtpVerif.Wire.idxP bs i = .ok b) : bs[i]? = some b := by
+  unfold NtpVerif.Wire.idxP at h
+  split at h
+  · rename_i hb; injection h with h; subst h; exact hb
+  · cases h
+
+theorem sliceP_ok {bs r : NtpVerif.Wire.Bytes} {a b : Nat} (h : NtpVerif.Wire.sliceP bs a b = .ok r) :
+    NtpVerif.Wire.slice? bs a b = some r := by
+  unfold NtpVerif.Wire.sliceP at h
+  split at h
+  · rename_i hb; injection h with h; subst h; exact hb
+  · cases h
+
+open NtpVerif.Wire in
+/-- what the header fields are on the wire, NTPv3/v4: the mode is bits 0–2 of the first byte, the stratum the
+    second byte, the origin timestamp bytes 24..32 (big endian); a parsed header has at least 48 bytes -/
+theorem header_v34_bytes (data : Bytes) (h : HeaderV34) (hs : Nat) (hd : HeaderV34.deserialize data = .ok (h, hs)) :
+    48 ≤ data.length ∧ ∃ b0 b1 o, data[0]? = some b0 ∧ data[1]? = some b1 ∧ slice? data 24 32 = some o ∧
+      h.mode = b0.toNat % 8 ∧ h.stratum = b1.toNat ∧ h.originTs = beNat o := by
+  unfold HeaderV34.deserialize at hd
+  split at hd
+  · cases hd
+  · rename_i hlen
+    simp only [Gen.HEADER_V3V4_WIRE_LENGTH] at hlen
+    simp only [bind, Except.bind] at hd
+    cases h0 : idxP data 0 with
+    | error e => rw [h0] at hd; cases hd
+    | ok b0 =>
+      rw [h0] at hd; simp only at hd
+      cases hl : Leap.fromBits (b0.toNat / 64) with
+      | error e => rw [hl] at hd; cases hd
+      | ok lp =>
+        rw [hl] at hd; simp only at hd
+        have hm : modeFromBits (b0.toNat % 8) = .ok (b0.toNat % 8) := by
+          unfold modeFromBits; simp [Nat.mod_lt]
+        rw [hm] at hd; simp only at hd
+        cases h1 : idxP data 1 with
+        | error e => rw [h1] at hd; cases hd
+        | ok b1 =>
+          rw [h1] at hd; simp only at hd
+          cases h2 : idxP data 2 with
+          | error e => rw [h2] at hd; cases hd
+          | ok b2 =>
+            rw [h2] at hd; simp only at hd
+            cases h3 : idxP data 3 with
+            | error e => rw [h3] at hd; cases hd
+            | ok b3 =>
+              rw [h3] at hd; simp only at hd
+              cases h4 : sliceP data 4 8 with
+              | error e => rw [h4] at hd; cases hd
+              | ok rd =>
+                rw [h4] at hd; simp only at hd
+                cases h5 : sliceP data 8 12 with
+                | error e => rw [h5] at hd; cases hd
+                | ok rdp =>
+                  rw [h5] at hd; simp only at hd
+                  cases h6 : sliceP data 12 16 with
+                  | error e => rw [h6] at hd; cases hd
+                  | ok rid =>
+                    rw [h6] at hd; simp only at hd
+                    cases h7 : sliceP data 16 24 with
+                    | error e => rw [h7] at hd; cases hd
+                    | ok rts =>
+                      rw [h7] at hd; simp only at hd
+                      cases h8 : sliceP data 24 32 with
+                      | error e => rw [h8] at hd; cases hd
+                      | ok ots =>
+                        rw [h8] at hd; simp only at hd
+                        cases h9 : sliceP data 32 40 with
+                        | error e => rw [h9] at hd; cases hd
+                        | ok rcv =>
+                          rw [h9] at hd; simp only at hd
+                          cases h10 : sliceP data 40 48 with
+                          | error e => rw [h10] at hd; cases hd
+                          | ok tts =>
+                            rw [h10] at hd
+                            simp only [pure, Except.pure, Except.ok.injEq, Prod.mk.injEq] at hd
+                            obtain ⟨hh, _⟩ := hd
+                            subst hh
+                            exact ⟨by omega, b0, b1, ots, idxP_ok h0, idxP_ok h1, sliceP_ok h8, rfl, rfl, rfl⟩
+
+open NtpVerif.Wire in
+theorem constructPacket_header {header : Header} {remaining : Bytes} {ef : EFData} {p : Packet}
+    (h : constructPacket header remaining ef = .ok p) : p.header = header := by
+  unfold constructPacket at h
+  split at h
+  · simp only [bind, Except.bind, pure, Except.pure] at h
+    split at h
+    · cases h
+    · cases h; rfl
+  · cases h; rfl
+
+open NtpVerif.Wire in
+theorem parseEF_header {dec : Dec} {ctx : Ctx} {data : Bytes} {header : Header} {hs : Nat} {ver : Ver}
+    {p : Packet} {c : Option Wire.Cookie} {v : Bool} (h : parseEF dec ctx data header hs ver = .ok (p, c, v)) :
+    p.header = header := by
+  unfold parseEF at h
+  simp only [bind, Except.bind, pure, Except.pure] at h
+  split at h
+  · cases h
+  · split at h
+    · cases h
+    · rename_i p' hp'
+      simp only [Except.ok.injEq, Prod.mk.injEq] at h
+      rw [← h.1]
+      exact constructPacket_header hp'
+
+open NtpVerif.Wire in
+/-- a packet that parsed with an NTPv3/NTPv4 header: that header is `HeaderV34.deserialize` of the datagram -/
+theorem parseR_header_v34 {dec : Dec} {ctx : Ctx} {data : Bytes} {p : Packet} {c : Option Wire.Cookie} {v : Bool}
+    (h : parseR dec ctx data = .ok (p, c, v)) (hh : HeaderV34) (hv : p.header = .v3 hh ∨ p.header = .v4 hh) :
+    ∃ hs, HeaderV34.deserialize data = .ok (hh, hs) := by
+  unfold parseR at h
+  split at h
+  · cases h
+  · simp only at h
+    split at h
+    · -- version 3
+      simp only [bind, Except.bind, pure, Except.pure] at h
+      split at h
+      · cases h
+      · rename_i x hx
+        obtain ⟨hdr, hs⟩ := x
+        simp only at h
+        have hp : p.header = .v3 hdr := by
+          split at h
+          · split at h
+            · cases h
+            · split at h
+              · cases h
+              · cases h; rfl
+          · cases h; rfl
+        rw [hp] at hv
+        rcases hv with hv | hv
+        · injection hv with hv; subst hv; exact ⟨hs, hx⟩
+        · cases hv
+    · split at h
+      · -- version 4
+        simp only [bind, Except.bind, pure, Except.pure] at h
+        split at h
+        · cases h
+        · rename_i x hx
+          obtain ⟨hdr, hs⟩ := x
+          simp only at h
+          have hp := parseEF_header h
+          rw [hp] at hv
+          rcases hv with hv | hv
+          · cases hv
+          · injection hv with hv; subst hv; exact ⟨hs, hx⟩
+      · split at h
+        · -- version 5
+          simp only [bind, Except.bind, pure, Except.pure] at h
+          split at h
+          · cases h
+          · rename_i x hx
+            obtain ⟨hdr, hs⟩ := x
+            simp only at h
+            split at h
+            · cases h
+            · rename_i y hy
+              obtain ⟨p', c', v'⟩ := y
+              have hp := parseEF_header hy
+              simp only at h
+              have : p = p' := by
+                split at h
+                · cases h; rfl
+                · split at h
+                  · cases h; rfl
+                  · cases h
+              subst this
+              rw [hp] at hv
+              rcases hv with hv | hv <;> cases hv
+        · cases h
+
+open NtpVerif.Wire NtpVerif.SourceBytes in
+/-- **C08.bytes_measurement_wire_v34** — the conditions of `bytes_measurement_conditions` read off the datagram, for an
+    NTPv3/NTPv4 answer: a datagram that yields a measurement has at least 48 bytes, mode bits (byte 0, bits 0–2) = 4
+    (server), a stratum byte (byte 1) between 1 and 16, and bytes 24..32 — the origin timestamp — are, big endian, the
+    origin of the pending request. -/
+theorem bytes_measurement_wire_v34 (dec : Dec) (s2c : Option Bytes) (s s' : State) (now : Nat) (data : Bytes)
+    (sendTs recvTs : Nat) (bl : Option Bool) (u : Bool) (m : Meas) (k : Nat)
+    (h : incomingBytes dec s2c s now data sendTs recvTs bl = (s', .accepted u m k))
+    (pkt : Packet) (c : Option Wire.Cookie) (hpar : parse dec (ctxOf s2c) data = .ok pkt c)
+    (hh : HeaderV34) (hv : pkt.header = .v3 hh ∨ pkt.header = .v4 hh) :
+    48 ≤ data.length ∧ ∃ b0 b1 o id deadline, data[0]? = some b0 ∧ data[1]? = some b1 ∧ slice? data 24 32 = some o ∧
+      b0.toNat % 8 = 4 ∧ 1 ≤ b1.toNat ∧ b1.toNat ≤ 16 ∧
+      s.pending = some (id, deadline) ∧ now ≤ deadline ∧ beNat o = id.origin := by
+  obtain ⟨pkt', c', id, dl, hpar', hpend, hw, _, hvalid, hst0, hst, hmode, _⟩ :=
+    bytes_measurement_conditions dec s2c s s' now data sendTs recvTs bl u m k h
+  rw [hpar] at hpar'
+  injection hpar' with hp1 _
+  subst hp1
+  have hR : parseR dec (ctxOf s2c) data = .ok (pkt, c, true) := by
+    unfold parse at hpar
+    split at hpar
+    · rename_i p0 c0 hp0
+      injection hpar with e1 e2
+      subst e1; subst e2; exact hp0
+    all_goals cases hpar
+  obtain ⟨hs, hd⟩ := parseR_header_v34 hR hh hv
+  obtain ⟨hlen, b0, b1, o, e0, e1, eo, hm, hs1, ho⟩ := header_v34_bytes data hh hs hd
+  have hrec : (recordOfPacket pkt).mode = hh.mode ∧ (recordOfPacket pkt).stratum = hh.stratum ∧
+      (recordOfPacket pkt).origin = hh.originTs := by
+    unfold recordOfPacket
+    rcases hv with hv | hv <;> rw [hv] <;> exact ⟨rfl, rfl, rfl⟩
+  have horg := (valid_means_bound _ id _ hvalid).1
+  rw [hrec.1, hm] at hmode
+  rw [hrec.2.1, hs1] at hst0 hst
+  rw [hrec.2.2, ho] at horg
+  exact ⟨hlen, b0, b1, o, id, dl, e0, e1, eo, hmode, by omega, hst, hpend, hw, horg⟩
 
 /-! #### histories -/
 
@@ -263,3 +517,7 @@ end NtpVerif.C08
 #print axioms NtpVerif.C08.replay_ignored
 #print axioms NtpVerif.C08.at_most_one
 #print axioms NtpVerif.C08.measurements_le_requests
+#print axioms NtpVerif.C08.bytes_measurement_conditions
+#print axioms NtpVerif.C08.bytes_replay_ignored
+#print axioms NtpVerif.C08.header_v34_bytes
+#print axioms NtpVerif.C08.bytes_measurement_wire_v34
